@@ -101,7 +101,17 @@ static void op_ep_param(int argc, char **argv) {
 		ep_curve_opt_a(), ep_curve_opt_b());
 	if (ep_curve_is_endom()) {
 		fprintf(OUT, " beta="); fp_print_std(ep_curve_get_beta());
+#if defined(EP_ENDOM)
+		/* the lattice data bn_rec_glv works with (signed), for the driver's model of the decomposition */
+		for (int i = 0; i < 3; i++) {
+			const bn_st *v = &ep_curve_get_v1()[i], *u = &ep_curve_get_v2()[i];
+			fprintf(OUT, " v1%d=%s", i, v->sign == RLC_NEG && !bn_is_zero(v) ? "-" : ""); raw_print(v->dp, v->used > 0 ? v->used : 1, 0);
+			fprintf(OUT, " v2%d=%s", i, u->sign == RLC_NEG && !bn_is_zero(u) ? "-" : ""); raw_print(u->dp, u->used > 0 ? u->used : 1, 0);
+		}
+#endif
 	}
+	/* window width of the variable-base routines, comb depth of the fixed-base routines, field size (recoding capacities) */
+	fprintf(OUT, " width=%d depth=%d fpbits=%d", RLC_WIDTH, RLC_DEPTH, RLC_FP_BITS);
 	fprintf(OUT, " embed=%d level=%d", ep_curve_embed(), ep_param_level());
 	/* field-level derived state that must follow the selection: sparse form of the modulus, family parameter and its sparse form */
 	{
@@ -204,6 +214,71 @@ static void op_epm(int argc, char **argv) {
 		else { fprintf(OUT, "unknown-epm %s\n", v); return; }
 	} RLC_CATCH_ANY { caught = 1; }
 	if (take_err() || caught) fprintf(OUT, "err"); else ep_out(pc);
+	fputc('\n', OUT);
+}
+
+/* eptab <variant> <P> : the precomputation table ep_mul_pre_<variant> builds for P, every entry normalised, separated by ';' */
+static int tab_len(const char *v) {
+	bn_t n; bn_null(n); bn_new(n); ep_curve_get_ord(n);
+	int l = -1;
+	if (!strcmp(v, "basic")) l = bn_bits(n);
+	else if (!strcmp(v, "combs")) l = RLC_EP_TABLE_COMBS;
+	else if (!strcmp(v, "combd")) l = RLC_EP_TABLE_COMBD;
+	else if (!strcmp(v, "lwnaf")) l = RLC_EP_TABLE_LWNAF;
+	bn_free(n);
+	return l;
+}
+static void op_eptab(int argc, char **argv) {
+	if (argc < 3) { fprintf(OUT, "bad-args\n"); return; }
+	const char *v = argv[1];
+	int caught = 0, len = tab_len(v);
+	static ep_t tab[RLC_EP_TABLE_MAX];
+	ep_t p; ep_null(p); ep_new(p);
+	if (len < 0) { fprintf(OUT, "unknown-eptab %s\n", v); return; }
+	ep_tok(p, argv[2]);
+	for (int i = 0; i < RLC_EP_TABLE_MAX; i++) { ep_null(tab[i]); ep_new(tab[i]); ep_set_infty(tab[i]); }
+	RLC_TRY {
+		if (!strcmp(v, "basic")) ep_mul_pre_basic(tab, p);
+		else if (!strcmp(v, "combs")) ep_mul_pre_combs(tab, p);
+		else if (!strcmp(v, "combd")) ep_mul_pre_combd(tab, p);
+		else ep_mul_pre_lwnaf(tab, p);
+	} RLC_CATCH_ANY { caught = 1; }
+	if (take_err() || caught) { fprintf(OUT, "err\n"); return; }
+	for (int i = 0; i < len; i++) { if (i) fputc(';', OUT); ep_out(tab[i]); }
+	fputc('\n', OUT);
+}
+
+/* epfixt <variant> <k> <T0>;<T1>;... : ep_mul_fix_<variant> on a caller-supplied table (any points, not necessarily the
+ * multiples a precomputation would store): ties the column / digit extraction and the loop to the model independently of the
+ * table construction.  Missing entries are the identity. */
+static void op_epfixt(int argc, char **argv) {
+	if (argc < 3) { fprintf(OUT, "bad-args\n"); return; }
+	const char *v = argv[1];
+	int caught = 0, len = tab_len(v);
+	static ep_t tab[RLC_EP_TABLE_MAX];
+	ep_t c; bn_t k; raw_t rk;
+	ep_null(c); ep_new(c); bn_null(k); bn_new(k);
+	if (len < 0) { fprintf(OUT, "bad-args\n"); return; }
+	raw_parse(&rk, argv[2]); raw_to_bn(k, &rk);
+	for (int i = 0; i < RLC_EP_TABLE_MAX; i++) { ep_null(tab[i]); ep_new(tab[i]); ep_set_infty(tab[i]); }
+	/* the table is one token, entries separated by ';' (the tokenizer of the oracle stops at MAXTOK tokens) */
+	if (argc > 3) {
+		int i = 0;
+		for (char *q = argv[3]; q && *q; i++) {
+			char *sep = strchr(q, ';');
+			if (sep) *sep = 0;
+			if (i >= len) { fprintf(OUT, "bad-args\n"); return; }
+			ep_tok(tab[i], q);
+			q = sep ? sep + 1 : NULL;
+		}
+	}
+	RLC_TRY {
+		if (!strcmp(v, "basic")) ep_mul_fix_basic(c, (const ep_t *)tab, k);
+		else if (!strcmp(v, "combs")) ep_mul_fix_combs(c, (const ep_t *)tab, k);
+		else if (!strcmp(v, "combd")) ep_mul_fix_combd(c, (const ep_t *)tab, k);
+		else ep_mul_fix_lwnaf(c, (const ep_t *)tab, k);
+	} RLC_CATCH_ANY { caught = 1; }
+	if (take_err() || caught) fprintf(OUT, "err"); else ep_out(c);
 	fputc('\n', OUT);
 }
 
@@ -310,7 +385,7 @@ static void op_ep_read_bin(int argc, char **argv) {
 #include "ops_ep2.inc"
 
 const op_t ops_ep[] = {
-	{"ep_param", op_ep_param}, {"core_reinit", op_core_reinit}, {"ep_sel", op_ep_sel}, {"ep2", op_ep2}, {"ep1", op_ep1}, {"epm", op_epm}, {"eps", op_eps}, {"ep_glv", op_ep_glv}, {"epl", op_epl}, {"epd", op_epl}, {"epla", op_epl}, {"epda", op_epl},
+	{"ep_param", op_ep_param}, {"core_reinit", op_core_reinit}, {"ep_sel", op_ep_sel}, {"ep2", op_ep2}, {"ep1", op_ep1}, {"epm", op_epm}, {"eptab", op_eptab}, {"epfixt", op_epfixt}, {"eps", op_eps}, {"ep_glv", op_ep_glv}, {"epl", op_epl}, {"epd", op_epl}, {"epla", op_epl}, {"epda", op_epl},
 	{"ep_write_bin", op_ep_write_bin}, {"ep_read_bin", op_ep_read_bin},
 	EP2_OPS
 	{NULL, NULL}
